@@ -487,6 +487,26 @@ Proof.
 Qed.
 Print Assumptions C12_fit_copies.
 
+(* fit_transform(K, w, copy=False), on the heap machine: same object, same RETURNED matrix and same
+   contents of the caller's array afterwards as fit(K, w) followed by transform(K, copy=False) — the
+   returned matrix is the fit-then-transform of the values the array held when the call was made
+   (fit copies them first), the array afterwards holds the centred kernel the transform left *)
+Theorem C12_fit_transform_inplace :
+  forall (T : Type) (nrows ncols : T -> nat) (norm_w : T -> T)
+         (fit_num : bool -> bool -> T -> option T -> T * T * T)
+         (tr_num : bool -> option T -> T -> T -> T -> T -> T)
+         (cen_num : bool -> option T -> T -> T -> T -> T)
+         (o : kn_obj T) (h : heap T) (aK : nat) (aw : option nat),
+    kn_w_ok T nrows (h aK) (hrd T h aw) = true ->
+    let '(o2, h2, rs) := kh_run T nrows ncols norm_w fit_num tr_num cen_num o h
+                                (cons (HFit aK aw) (cons (HTransformIP aK) nil)) in
+    kh_run T nrows ncols norm_w fit_num tr_num cen_num o h (cons (HFitTransformIP aK aw) nil)
+    = (o2, h2, cons (List.last rs RDone) nil).
+Proof.
+  move=> T nrows ncols norm_w fit_num tr_num cen_num o h aK aw; exact: kh_fit_transform_inplace.
+Qed.
+Print Assumptions C12_fit_transform_inplace.
+
 (* non-vacuity on the binary64 instantiation: fit(K1 at address 0, weights at address 1), the
    caller overwrites both arrays, transform(copy=False) of the array at address 2: the result
    is the one obtained without the writes, and the array at address 2 now holds the centred,
@@ -501,9 +521,14 @@ Example C12_fit_copies_nonvacuous_float :
   let r2 := fkh_run (kn_new fmat true true) h (cons (HFit 0%N (Some 1%N)) (cons (HTransformIP 2%N) nil)) in
   snd r1 = snd r2 /\ fst (fst r1) = fst (fst r2)
   /\ (exists X, snd r1 = cons RDone (cons (ROut X) nil))
-  /\ fclose_ref 0%float 0%float (snd (fst r1) 2%N) K1 = false.
+  /\ fclose_ref 0%float 0%float (snd (fst r1) 2%N) K1 = false
+  /\ (let r3 := fkh_run (kn_new fmat true true) h (cons (HFitTransformIP 0%N (Some 1%N)) nil) in
+      let r4 := fkh_run (kn_new fmat true true) h (cons (HFitTransform 0%N (Some 1%N)) nil) in
+      snd r3 = snd r4 /\ fclose_ref 0%float 0%float (snd (fst r3) 0%N) K1 = false
+      /\ snd (fst r4) 0%N = K1).
 Proof.
-  split; [by vm_compute|split; [by vm_compute|split]].
+  split; [by vm_compute|split; [by vm_compute|split; [|split]]].
   - by eexists; vm_compute.
+  - by vm_compute.
   - by vm_compute.
 Qed.
